@@ -1,10 +1,11 @@
--- driver for C10 (stub)
-def step (_line : String) : String := "bad-op"
+import GrcovModel.Drv.C10
+-- driver for C10: one request per line, one answer per line (see GrcovModel/Drv/C10.lean)
+open Grcov.Drv
 
 partial def loop (h : IO.FS.Stream) (out : IO.FS.Stream) : IO Unit := do
   let line ← h.getLine
   if line.isEmpty then return ()
-  out.putStrLn (step line)
+  out.putStrLn (stepC10 line)
   loop h out
 
 def main : IO Unit := do
